@@ -258,6 +258,36 @@ def errlike(rng):
                        {"k": "ptr", "e": {"k": "alias", "pkg": "os", "n": "PathError", "targs": []}}, named("net", "Error")])
 
 
+def inject_underscore_names(rng, ifaces, p=0.1):
+    """Declared names with leading underscores whose remainder is a keyword, starts with a digit or
+    equals another declared name (declared names are offered as declared)."""
+    for i in ifaces:
+        for mm in i["methods"]:
+            sig = mm["sig"]
+            vs = [x for x in sig["params"] + sig["results"]]
+            named_ps = [x for x in sig["params"] if x["n"] not in ("", "_")]
+            if len(named_ps) != len(sig["params"]) or not named_ps or rng.random() >= p:
+                continue
+            used = {x["n"] for x in vs}
+            k = rng.randint(1, min(2, len(named_ps)))
+            for x in rng.sample(named_ps, k):
+                others = [y["n"] for y in vs if y is not x and y["n"] not in ("", "_") and not y["n"].startswith("_")]
+                cands = ["_type", "_func", "_range", "_go", "_map", "_var", "_1", "_2x", "__x", "_"] + ["_" + o for o in others] + ["__" + o for o in others[:1]]
+                n = rng.choice([c for c in cands if c != "_"])
+                if n in used:
+                    continue
+                used.discard(x["n"])
+                used.add(n)
+                x["n"] = n
+            if sig["results"] and all(r["n"] not in ("", "_") for r in sig["results"]) and rng.random() < 0.5:
+                r = sig["results"][-1]
+                n = "_" + r["n"].lstrip("_")
+                if n not in used and n != "_":
+                    used.add(n)
+                    r["n"] = n
+            GEN_STATS["underscore"] = GEN_STATS.get("underscore", 0) + 1
+
+
 def inject_slice_results(rng, ifaces, p=0.5):
     """Variadic methods WITH results whose types are slices / maps of slices (a result must never be
     described as variadic)."""
@@ -326,6 +356,7 @@ def gen_module(rng, nsrc, **genkw):
             GEN_STATS[kk] = GEN_STATS.get(kk, 0) + vv
         inject_error_like(rng, mm["ifaces"])
         inject_slice_results(rng, mm["ifaces"])
+        inject_underscore_names(rng, mm["ifaces"])
         base = base or mm
         srcs.append({"path": mm["src"]["path"], "name": mm["src"]["name"], "ifaces": mm["ifaces"], "nonascii": mm["nonascii"]})
     return {"mod": MOD, "ext": base["ext"], "std": base["std"], "srcs": srcs}
@@ -1154,7 +1185,7 @@ def check(ctx, only=None):
     ctx.write_evidence(gate, evaluations, len(nontrivial),
                        "one evaluation = one output file's complete data-model dump compared with the model (every accessor of every method/parameter) or one package x placement type-checked by the re-emission oracle; non-trivial = the file has an aliased import or a name changed by collision resolution; distinct by hash of the dump",
                        samples,
-                       extra={"input_histogram": dict(hist, **{"generator: dense multi-mention types": GEN_STATS.get("dense", 0), "generator: methods with a name tuple X, X1": GEN_STATS.get("tuples", 0), "generator: wide methods (3-10 long-named parameters)": GEN_STATS.get("wide", 0), "generator: methods with a result that implements error without being error": GEN_STATS.get("errlike", 0), "generator: variadic methods with slice / map-of-slice results": GEN_STATS.get("slice_results", 0)}), "model_mismatches": len(corr_bad), "oracle_failed": oracle_failed,
+                       extra={"input_histogram": dict(hist, **{"generator: dense multi-mention types": GEN_STATS.get("dense", 0), "generator: methods with a name tuple X, X1": GEN_STATS.get("tuples", 0), "generator: wide methods (3-10 long-named parameters)": GEN_STATS.get("wide", 0), "generator: methods with a result that implements error without being error": GEN_STATS.get("errlike", 0), "generator: variadic methods with slice / map-of-slice results": GEN_STATS.get("slice_results", 0), "generator: methods with declared names _<keyword> / _<digit> / _<other name>": GEN_STATS.get("underscore", 0)}), "model_mismatches": len(corr_bad), "oracle_failed": oracle_failed,
                               "mockery_runs": 2 * len(modules) + (7 if only is None else 0), "phase_seconds": phase},
                        assumptions=["go/types method-set completion and method order are recomputed by the harness (exported names by name, then unexported) and are inputs of the model",
                                     "go/parser (harness/go/gotype) is trusted to read Go type expressions; identifier visibility (exported/unexported across packages) is not modelled: interfaces that cannot be named from another package are rendered in-package only",
